@@ -120,14 +120,18 @@ OutMatch(e, x) ==
       [] e.o = "OutPing"       -> x.msg.k = "UserControl" /\ x.msg.et = "PingRequest"
       [] OTHER -> FALSE
 
+\* the input an expected observation belongs to: the event's input, or - for an input call that delivered SEVERAL messages
+\* (i.m = "batch") - the item the observation was derived from
+Item(e) == IF "j" \in DOMAIN e THEN Ev.i.items[e.j] ELSE Ev.i
+
 EvMatch(e, x) ==
     /\ e.o = x.o
     /\ CASE e.o = "ConnectionRequested"    -> x.req = e.req /\ x.app = e.app
          [] e.o = "PublishStreamRequested" -> x.req = e.req /\ x.app = e.app /\ x.key = e.key /\ x.mode = e.mode
          [] e.o = "PlayStreamRequested"    -> x.req = e.req /\ x.app = e.app /\ x.key = e.key /\ x.sid = e.sid
          [] e.o \in {"PublishStreamFinished", "PlayStreamFinished"} -> x.app = e.app /\ x.key = e.key
-         [] e.o = "Media" -> x.kind = e.kind /\ x.app = e.app /\ x.key = e.key /\ x.ts = e.ts /\ BytesEq(x.data, Ev.i.data)
-         [] e.o = "Metadata" -> x.app = e.app /\ x.key = e.key /\ x.meta = Ev.i.meta
+         [] e.o = "Media" -> x.kind = e.kind /\ x.app = e.app /\ x.key = e.key /\ x.ts = e.ts /\ BytesEq(x.data, Item(e).data)
+         [] e.o = "Metadata" -> x.app = e.app /\ x.key = e.key /\ x.meta = Item(e).meta
 
 IsEventObs(e) == e.o \in Constrained
 ExpEvents(obs) == SelectSeq(obs, IsEventObs)
@@ -175,12 +179,28 @@ DoNew ==
     /\ Advance
 
 \* judge one In / Call event
+\* one input call that delivered several complete messages: the model takes them one after the other; what the call returns
+\* is the concatenation of what each message calls for.  (The driver keeps messages that need fresh ids, announce a window or
+\* are malformed out of batches; a batch holding an item the model refuses is not judged.)
+RECURSIVE FoldSrv(_, _, _)
+FoldSrv(s, items, k) ==
+    IF k > Len(items) THEN [st |-> s, obs |-> <<>>, bad |-> FALSE]
+    ELSE LET it   == [zero |-> ZeroTxn, fresh |-> -1] @@ items[k]
+             r    == SrvStep(s, it)
+             rest == FoldSrv(r.st, items, k + 1)
+         IN  [st |-> rest.st,
+              obs |-> [n \in 1 .. Len(r.obs) |-> [j |-> k] @@ r.obs[n]] \o rest.obs,
+              bad |-> rest.bad \/ r.obs = ErrObs]
+
 DoStep ==
     LET i0  == Ev.i
         rs  == Ev.results
         fr  == FreshOf(i0, rs)
         i   == [zero |-> ZeroTxn, fresh |-> fr] @@ i0
-        r   == SrvStep(st, i)
+        isBatch == i0.m = "batch"
+        fb  == FoldSrv(st, i0.items, 1)
+        unjudged == isBatch /\ fb.bad
+        r   == IF isBatch THEN [st |-> fb.st, obs |-> fb.obs] ELSE SrvStep(st, i)
         exE == ExpEvents(r.obs)
         exO == ExpOuts(r.obs)
         gotE == Events(rs)
@@ -198,7 +218,8 @@ DoStep ==
         \* message is not constrained; only "no event may be raised for it" is
         lenient == i0.m \in {"closeStream", "deleteStream"} /\ i0.arg # "num"
         verdictSrv ==
-            IF malformedMeta THEN ""
+            IF unjudged THEN ""
+            ELSE IF malformedMeta THEN ""
             ELSE IF lenient THEN (IF Len(gotE) # 0 THEN "event raised for a malformed message (" \o i0.m \o ")" ELSE "")
             ELSE IF Ev.res \notin {"ok"} /\ ~wantErr THEN "call failed where the protocol prescribes a result: " \o Ev.res
             ELSE IF wantErr /\ Ev.res = "ok" THEN "call succeeded where it must be refused (" \o i0.m \o ")"
@@ -223,9 +244,9 @@ DoStep ==
             /\ IF ackBad THEN Say("ACK", IF a.ack = <<>> THEN "acknowledgement emitted although the window was not reached"
                                          ELSE "window reached: exactly one acknowledgement carrying the byte count must be emitted by this call")
                ELSE TRUE
-            /\ IF verdictSrv = "" /\ ~ProbeOK(Ev.probe, r.st) THEN Say("PROBE", "session state differs from the model after " \o i0.m) ELSE TRUE
+            /\ IF verdictSrv = "" /\ ~unjudged /\ ~ProbeOK(Ev.probe, r.st) THEN Say("PROBE", "session state differs from the model after " \o i0.m) ELSE TRUE
             /\ IF verdictSrv = "" /\ ~ClockOK(rs2, Ev.clk) THEN Say("SHAPE", "a control message does not carry the session uptime (" \o i0.m \o ")") ELSE TRUE
-            /\ IF verdictSrv = "" /\ Ev.res = "ok" /\ ~InfoOK(i0, rs) THEN Say("SHAPE", "informational results differ from the usual ones (" \o i0.m \o ")") ELSE TRUE
+            /\ IF verdictSrv = "" /\ ~isBatch /\ Ev.res = "ok" /\ ~InfoOK(i0, rs) THEN Say("SHAPE", "informational results differ from the usual ones (" \o i0.m \o ")") ELSE TRUE
             /\ IF verdictSrv = "" /\ i0.m = "play" /\ ~PlayArgsOK(i0, rs) THEN Say("SHAPE", "optional play arguments are surfaced differently from the usual reading") ELSE TRUE
             /\ IF verdictSrv = "" /\ i0.m = "accept" /\ ~wantErr /\ Kinds(gotO) # AcceptShape(st.reqs[i0.id].k)
                THEN Say("SHAPE", "acceptance of a " \o st.reqs[i0.id].k \o " request does not consist of the usual messages") ELSE TRUE
@@ -237,7 +258,7 @@ DoStep ==
     /\ pend' = IF Ev.ev = "In" /\ i0.m = "winack" /\ win = <<>> THEN FromNat(Ev.probe.pending)
                ELSE IF ackBad THEN FromNat(Ev.probe.pending) ELSE a.pend
     \* after a verdict the model and the session may have diverged: stop judging this run
-    /\ dead' = (dead \/ verdictSrv # "")
+    /\ dead' = (dead \/ verdictSrv # "" \/ unjudged)
     /\ Advance
 
 Step == /\ l <= NRec
